@@ -185,10 +185,10 @@ class Layout:
             t = _attr(b, 'tag')
             if t == 'DW_TAG_pointer_type':
                 bt = _attr(b, 'baseType')
-                if bt and s.md.get(int(bt[1:]), '').startswith('!DISubroutineType'): return ('fnptr',)
+                if bt and bt[1:].isdigit() and s.md.get(int(bt[1:]), '').startswith('!DISubroutineType'): return ('fnptr',)
                 return ('ptr',)
             bt = _attr(b, 'baseType')
-            return s.type_class(int(bt[1:])) if bt else ('void',)
+            return s.type_class(int(bt[1:])) if bt and bt[1:].isdigit() else ('void',)
         if b.startswith('!DICompositeType('):
             t = _attr(b, 'tag')
             if t == 'DW_TAG_array_type':
